@@ -600,19 +600,17 @@ def stepReg (st : DState) (args : List String) : Option (DState × String) :=
         -- ratios: `n:<rat>` numbers or `q:<amount>@<unit>` quantities (reduced to
         -- their reference values, or amounts when all share one unit)
         let toks := if ratios == "-" then [] else ratios.splitOn ","
-        let parsed : Option (List Rat) := toks.mapM fun t =>
-          if t.startsWith "n:" then parseRat? (t.drop 2).toString
+        let parsed : Option (List QState.Ratio) := toks.mapM fun t =>
+          if t.startsWith "n:" then (parseRat? (t.drop 2).toString).map .num
           else if t.startsWith "q:" then
             match parseQty? r d (t.drop 2).toString with
-            | some (.ok x) => (match q.refValue x with
-                | some v => some v
-                | none => some x.amount)
+            | some (.ok x) => some (.qty x)
             | _ => none
           else none
         match parsed with
         | none => some (st, bad)
         | some rs =>
-          match allocate d qa.amount (r.unitQuantum qa.unit) rs (disp == "1") with
+          match q.allocateQty d qa rs (disp == "1") with
           | .error e => some (st, "err " ++ e.name)
           | .ok (ps, rem) =>
             some (st, s!"ok {",".intercalate (ps.map ratStr)}@{usym r qa.unit}:{(r.cls (r.unitCls qa.unit)).name} rem={ratStr rem}")
